@@ -211,10 +211,19 @@ func isLeafType(w *world, t *ast.Type) bool {
 
 // selectable returns the allowed, available fields of def; leavesOnly restricts to
 // scalar/enum results.
-func (g *opGen) selectable(def *ast.Definition, leavesOnly bool) []*ast.FieldDefinition {
+func (g *opGen) selectable(def *ast.Definition, leavesOnly bool, anc ancestry) []*ast.FieldDefinition {
 	var out []*ast.FieldDefinition
 	for _, f := range g.w.allowed[def.Name] {
 		if u := g.w.units[def.Name+"."+f.Name]; u != nil {
+			// steer away from recorded findings that depend on where a resolver is selected
+			if u.Kind == unitResolver && anc.nestedList {
+				g.excluded[findNestedListParent] = true
+				continue
+			}
+			if u.Kind == unitResolver && anc.abstract {
+				g.excluded[findResolverInUnion] = true
+				continue
+			}
 			if ok, finding := g.usable(u.Key); !ok {
 				if finding != "" {
 					g.excluded[finding] = true
@@ -234,23 +243,23 @@ func (g *opGen) selectable(def *ast.Definition, leavesOnly bool) []*ast.FieldDef
 // key -> field name + args.
 type used map[string]string
 
-func (g *opGen) selSet(def *ast.Definition, depth int, u used) []*node {
+func (g *opGen) selSet(def *ast.Definition, depth int, u used, anc ancestry) []*node {
 	n := 1 + g.c.Int(4, "nsel")
 	if depth == 0 {
 		n = 1 + []int{0, 0, 1, 1, 2}[g.c.Int(5, "nroot")]
 	}
 	var out []*node
 	for i := 0; i < n; i++ {
-		if k := g.selection(def, depth, u); k != nil {
+		if k := g.selection(def, depth, u, anc); k != nil {
 			out = append(out, k)
 		}
 	}
 	if len(out) == 0 {
 		if def == g.w.schema.Query || def == g.w.schema.Mutation {
 			// a root selection must fetch something
-			fs := g.selectable(def, false)
+			fs := g.selectable(def, false, anc)
 			f := fs[g.c.Int(len(fs), "rootfield")]
-			if k := g.field(def, f, depth, u); k != nil {
+			if k := g.field(def, f, depth, u, anc); k != nil {
 				return []*node{k}
 			}
 		}
@@ -263,7 +272,7 @@ func (g *opGen) selSet(def *ast.Definition, depth int, u used) []*node {
 	return out
 }
 
-func (g *opGen) selection(def *ast.Definition, depth int, u used) *node {
+func (g *opGen) selection(def *ast.Definition, depth int, u used, anc ancestry) *node {
 	root := def == g.w.schema.Query || def == g.w.schema.Mutation
 	abstract := def.Kind == ast.Interface || def.Kind == ast.Union
 	r := g.c.Int(20, "selkind")
@@ -277,10 +286,10 @@ func (g *opGen) selection(def *ast.Definition, depth int, u used) *node {
 	case abstract && (r <= 12 || def.Kind == ast.Union):
 		pts := g.w.possible(def)
 		pt := pts[g.c.Int(len(pts), "ptype")]
-		kids := g.selSet(pt, depth, u) // same depth and same key scope: a fragment does not nest the response
+		kids := g.selSet(pt, depth, u, anc) // same depth and same key scope: a fragment does not nest the response
 		return &node{Frag: true, On: pt.Name, Kids: kids, scope: pt.Name}
 	}
-	fs := g.selectable(def, depth >= g.maxDepth)
+	fs := g.selectable(def, depth >= g.maxDepth, anc)
 	if len(fs) == 0 {
 		return nil
 	}
@@ -289,10 +298,10 @@ func (g *opGen) selection(def *ast.Definition, depth int, u used) *node {
 	if g.w.units[def.Name+"."+f.Name] == nil && isLeafType(g.w, f.Type) && g.c.Int(3, "retry") == 0 {
 		f = fs[g.c.Int(len(fs), "field2")]
 	}
-	return g.field(def, f, depth, u)
+	return g.field(def, f, depth, u, anc)
 }
 
-func (g *opGen) field(def *ast.Definition, f *ast.FieldDefinition, depth int, u used) *node {
+func (g *opGen) field(def *ast.Definition, f *ast.FieldDefinition, depth int, u used, anc ancestry) *node {
 	k := &node{Name: f.Name, Args: genArgs(g.c, g.w, f)}
 	sig := k.Name + k.Args
 	if prev, ok := u[f.Name]; ok {
@@ -311,7 +320,11 @@ func (g *opGen) field(def *ast.Definition, f *ast.FieldDefinition, depth int, u 
 	if !isLeafType(g.w, f.Type) {
 		rt := g.w.schema.Types[f.Type.Name()]
 		k.scope = rt.Name
-		k.Kids = g.selSet(rt, depth+1, used{})
+		k.Kids = g.selSet(rt, depth+1, used{}, ancestry{
+			nullable:   anc.nullable || !f.Type.NonNull || (f.Type.Elem != nil && !f.Type.Elem.NonNull),
+			nestedList: anc.nestedList || listDepth(f.Type) > 1,
+			abstract:   anc.abstract || rt.Kind != ast.Object,
+		})
 	}
 	return k
 }
@@ -324,7 +337,7 @@ func genBase(t *rapid.T, w *world, usable func(string) (bool, string), maxDepth 
 		rootDef, o.Mutation = w.schema.Mutation, true
 	}
 	o.rootType = rootDef.Name
-	o.Roots = g.selSet(rootDef, 0, used{})
+	o.Roots = g.selSet(rootDef, 0, used{}, ancestry{})
 	return o
 }
 
